@@ -222,8 +222,12 @@ Section Top.
   Definition strict (fs : fsys) (X : xview) : Prop :=
     forall q i e, names fs q = Some i -> X q = Some e -> x_known e = true -> d_mtime (inodes fs i) = d_mtime (x_d e).
 
+  Definition mk_timed (fs : fsys) (X : xview) : Prop :=
+    forall q i e t, names fs q = Some i -> X q = Some e -> x_mk e = true -> o_utime o = Some t -> d_mtime (inodes fs i) = t.
+
   Lemma fix_created_ok cr st X : Inv (c_fs st) X -> G X cr ->
-    Inv (c_fs (fix_created o cr st)) X /\ strict (c_fs (fix_created o cr st)) X /\ same_rest (fix_created o cr st) st.
+    Inv (c_fs (fix_created o cr st)) X /\ strict (c_fs (fix_created o cr st)) X /\ same_rest (fix_created o cr st) st /\
+    mk_timed (c_fs (fix_created o cr st)) X.
   Proof.
     intros I Hg. unfold fix_created. destruct (o_utime o) as [t|] eqn:Eu.
     - set (step := fun s d => match upd_path d (set_mtime t) (c_fs s) with Some f => with_fs s f | None => s end).
@@ -265,7 +269,10 @@ Section Top.
             split; auto. split; auto.
             intros q i' Hq. apply J2. destruct Hq as [Hq|[<-|Hq]]; auto. }
       destruct (Gen cr st (fun _ => False) I) as (J1 & J2 & J3); auto; [intros q i []|].
-      split; auto. split; auto.
+      split; auto. split; [|split; auto].
+      2:{ intros q i e t' Hn HX Hm Hu. rewrite Eu in Hu. inversion Hu; subst t'.
+          pose proof (Hg q) as Hgq. unfold Gp in Hgq. rewrite HX in Hgq. destruct Hgq as [G1 _].
+          apply (J2 q i); auto. }
       intros q i e Hn HX Hk. destruct (i_some _ _ _ J1 _ _ Hn) as (e' & E1 & E2 & _). rewrite HX in E1. inversion E1; subst e'.
       destruct (eff_known o e) eqn:Ee.
       + apply E2; auto.
@@ -273,7 +280,7 @@ Section Top.
         apply andb_true_iff in Ee as [Em _].
         pose proof (Hg q) as Hgq. unfold Gp in Hgq. rewrite HX in Hgq. destruct Hgq as [G1 G2].
         destruct (G2 (G1 Em)) as [_ K2]. rewrite (proj1 K2 t Eu). apply (J2 q i); auto.
-    - split; auto. split; [|apply same_rest_refl].
+    - split; auto. split; [|split; [apply same_rest_refl|intros q i e t' _ _ _ Hu; congruence]].
       intros q i e Hn HX Hk. destruct (i_some _ _ _ I _ _ Hn) as (e' & E1 & E2 & _). rewrite HX in E1. inversion E1; subst e'.
       apply E2. unfold eff_known, utset. rewrite Eu, Hk, andb_false_r. auto.
   Qed.
@@ -308,7 +315,8 @@ Section Top.
   Definition top_ok (res : xres + xerr) (out : R) : Prop :=
     match res with
     | inl r => exists st', out = (st', None) /\ Inv (c_fs st') (xr_view r) /\ strict (c_fs st') (xr_view r) /\
-                           rev (c_notifs st') = xr_notifs r /\ c_stale st' = false /\ exists cr, G (xr_view r) cr
+                           rev (c_notifs st') = xr_notifs r /\ c_stale st' = false /\
+                           mk_timed (c_fs st') (xr_view r) /\ exists cr, G (xr_view r) cr
     | inr xe => exists st' e, out = (st', Some e) /\ err_cls e = xerr_cls xe /\ c_stale st' = false /\
         match xe with
         | XConflict _ p bef => exists X', Inv (c_fs st') X' /\ strict (c_fs st') X' /\ X' p = bef /\ bef <> None
@@ -355,7 +363,7 @@ destruct (ensure_arg dst) as [|c0 e0] eqn:Een.
     destruct Ens as (st1 & cr1 & E1 & I1 & Hroot1 & G1 & (M1 & N1 & S1)). rewrite E1.
     (* ModeStr *)
     destruct (match o_modestr o with [] => Some None | _ :: _ => option_map Some (parse_mode (o_modestr o)) end) as [ms|] eqn:Ems.
-    2:{ destruct (fix_created_ok (cr1 ++ []) st1 X1 I1) as (J1 & J2 & (_ & _ & J3)); [rewrite app_nil_r; auto|].
+    2:{ destruct (fix_created_ok (cr1 ++ []) st1 X1 I1) as (J1 & J2 & (_ & _ & J3) & _); [rewrite app_nil_r; auto|].
         assert (Ems' : match o_modestr o with [] => Some None | s :: l => option_map Some (parse_mode (s :: l)) end = None).
         { destruct (o_modestr o); auto. }
         rewrite Ems'. unfold top_ok. eexists; eexists. split; [reflexivity|]. split; auto. split; auto. rewrite J3, S1. auto. }
@@ -364,18 +372,18 @@ destruct (ensure_arg dst) as [|c0 e0] eqn:Een.
     rewrite Ems'.
     (* wildcards *)
     destruct (if o_wild o then resolve_wild sroot src else inl [src]) as [srcs|e] eqn:Ew.
-    2:{ destruct (fix_created_ok (cr1 ++ []) st1 X1 I1) as (J1 & J2 & (_ & _ & J3)); [rewrite app_nil_r; auto|].
+    2:{ destruct (fix_created_ok (cr1 ++ []) st1 X1 I1) as (J1 & J2 & (_ & _ & J3) & _); [rewrite app_nil_r; auto|].
         assert (He : e = EScope \/ e = EOther).
         { destruct (o_wild o); [eapply resolve_wild_err; eauto|discriminate]. }
         unfold top_ok. destruct He as [-> | ->]; eexists; eexists; (split; [reflexivity|]); (split; [reflexivity|]);
           (split; [rewrite J3, S1; auto|exact Logic.I]). }
     destruct srcs as [|s0 srcs].
-    { destruct (fix_created_ok (cr1 ++ []) st1 X1 I1) as (J1 & J2 & (_ & _ & J3)); [rewrite app_nil_r; auto|].
+    { destruct (fix_created_ok (cr1 ++ []) st1 X1 I1) as (J1 & J2 & (_ & _ & J3) & _); [rewrite app_nil_r; auto|].
       unfold top_ok. eexists; eexists. split; [reflexivity|]. split; [reflexivity|]. split; auto. rewrite J3, S1. auto. }
     pose proof (copy_srcs_spec ms dst (s0 :: srcs) st1 X1 cr1 I1 Hroot1 G1) as HS.
     destruct (overlay_srcs o sroot ms dst (s0 :: srcs) X1) as [r|xe].
     - destruct HS as (st2 & cr2 & E2 & I2 & Hr2 & G2 & N2 & M2 & S2). rewrite E2.
-      destruct (fix_created_ok (cr1 ++ cr2) st2 (xr_view r) I2 G2) as (J1 & J2 & (J3 & J4 & J5)).
+      destruct (fix_created_ok (cr1 ++ cr2) st2 (xr_view r) I2 G2) as (J1 & J2 & (J3 & J4 & J5) & J6).
       unfold top_ok. cbn [xr_view xr_notifs]. eexists. split; [reflexivity|]. split; auto. split; auto.
       split; [rewrite J4, N2, N1; unfold st0; cbn [c_notifs]; rewrite app_nil_r, rev_involutive; reflexivity|].
       split; [rewrite J5, S2, S1; auto|eauto].
@@ -383,7 +391,7 @@ destruct (ensure_arg dst) as [|c0 e0] eqn:Een.
       unfold top_ok. eexists; eexists. split; [reflexivity|]. split; auto.
       destruct xe as [cls p bef| |].
       + destruct K2 as (X' & K1 & K3 & K4 & K5).
-        destruct (fix_created_ok (cr1 ++ cr2) st2 X' K1 K5) as (J1 & J2 & (J3 & J4 & J5)).
+        destruct (fix_created_ok (cr1 ++ cr2) st2 X' K1 K5) as (J1 & J2 & (J3 & J4 & J5) & _).
         split; [rewrite J5, S2, S1; auto|]. exists X'. auto.
       + split; auto. unfold fix_created. destruct (o_utime o); [|rewrite S2, S1; auto].
         assert (Hst : forall l s, c_stale (fold_left (fun s d => match upd_path d (set_mtime n) (c_fs s) with Some f => with_fs s f | None => s end) l s) = c_stale s).
